@@ -37,6 +37,7 @@ pub struct Drv<const N: usize> {
     pub calls: u64,
     /// a buffer of another capacity living in a sibling driver: (capacity, pointer), set by the runner
     pub peer: Option<(usize, *mut ())>,
+    pub dig: u64,
 }
 
 /// what the scenario runner needs from a driver of any capacity
@@ -46,6 +47,7 @@ pub trait Sub {
     fn buf_ptr(&self, h: i64) -> *mut ();
     fn set_peer(&mut self, p: Option<(usize, *mut ())>);
     fn do_finish(&mut self, last: bool);
+    fn digest(&self) -> u64;
 }
 
 impl<const N: usize> Sub for Drv<N> {
@@ -63,6 +65,9 @@ impl<const N: usize> Sub for Drv<N> {
     }
     fn do_finish(&mut self, last: bool) {
         self.finish(last)
+    }
+    fn digest(&self) -> u64 {
+        self.dig
     }
 }
 
@@ -271,6 +276,7 @@ impl<const N: usize> Drv<N> {
             skipped: 0,
             calls: 0,
             peer: None,
+            dig: 0xcbf29ce484222325,
         }
     }
 
@@ -386,6 +392,7 @@ impl<const N: usize> Drv<N> {
         ev.scn = std::mem::take(&mut self.scn);
         ev.feat = self.feat;
         ev.cap = N.min(1 << 20) as i64;
+        ev.digest(&mut self.dig);
         ev.write(&mut self.out);
         self.scn = std::mem::take(&mut ev.scn);
         self.calls += 1;
